@@ -209,7 +209,7 @@ LEMMAS = [Lemma("C01/lemma:plain-scalar-agreement", scalar_lemmas, replayer="rep
 VERIFIED_CALLEES = ()
 LEVEL = "other"
 TECHNIQUE = "contract-based deductive verification: language-inclusion lemmas between the real YAML resolver tables (regex -> RegLan, z3/cvc5), load_basic and the print_config flag mapping under contract + bounded run-time round-trip contract on generated parsers"
-LEVEL_TEXT = "under construction"
+LEVEL_TEXT = "Proved for all strings: every str that the real dumper emits as a plain YAML scalar is read back as a str by the real loader, and the dumper's texts for int/float/bool/null are read back with the same tag (language-inclusion lemmas between the resolver tables extracted from the running code on every run); load_basic returns True/False/None/int exactly for true/false/null/-?digits; the --print_config flags map to exactly the documented dump options. Bounded only: the serialise/deserialise agreement per type constructor and the whole dump -> parse round trip (507 types x look-alike values x formats x dump variants x 10 parser shapes)."
 LEVEL_NOTE = "under construction"
 EXPLANATION = "under construction"
 ASSUMPTIONS = []
